@@ -101,6 +101,17 @@ func (c *searchCriterion) quickMatch(
 		ip := readJSONValue(line, `"IP":"`)
 		clientID := readJSONValue(line, `"CID":"`)
 
+		// The values are read from the raw line, in which encoding/json has
+		// escaped some characters (<, >, &, quotes, backslashes, control
+		// characters, invalid UTF-8).  Every escape sequence starts with a
+		// backslash, so a value containing one cannot be compared with the
+		// term here.  Let the full match on the decoded entry decide.
+		if strings.IndexByte(host, '\\') >= 0 ||
+			strings.IndexByte(ip, '\\') >= 0 ||
+			strings.IndexByte(clientID, '\\') >= 0 {
+			return true
+		}
+
 		var name string
 		if cli := findClient(ctx, logger, clientID, ip); cli != nil {
 			name = cli.Name
